@@ -9,10 +9,10 @@
    sets: for each file and each phase set id a permutation of the haplotypes (identity on ids
    that do not occur).  The driver combines tuples and group elements. *)
 EXTENDS Compare, Json, IOUtils, SequencesExt
-CONSTANTS P, N, NF, BlkA, BlkB, BlkC, Holes, Stride, Offset, GStride
+CONSTANTS P, N, NF, NA, BlkA, BlkB, BlkC, Holes, Stride, Offset, GStride
 
 Blk(f) == CASE f = 1 -> BlkA [] f = 2 -> BlkB [] OTHER -> BlkC
-HetTuples == { a \in [1..P -> {0, 1}] : Het(a) }
+HetTuples == { a \in [1..P -> 0..(NA - 1)] : Het(a) }    \* NA = 2: bi-allelic variants, NA = 3: alleles 0, 1, 2
 SiteRecs(f) == { [b |-> b, a |-> a] : b \in Blk(f), a \in HetTuples }
                \cup (IF Holes THEN { [b |-> 0, a |-> [k \in 1..P |-> 0]], [b |-> 0, a |-> << >>] } ELSE {})
 Phasings(f) == [1..N -> SiteRecs(f)]
